@@ -28,6 +28,9 @@ class Buf:
     def __eq__(self, o):
         return isinstance(o, Buf) and (len(self) == 0 and len(o) == 0 or (self.lo, self.hi) == (o.lo, o.hi))
 
+    def __hash__(self):
+        return hash((self.lo, self.hi)) if len(self) else 0
+
     def __repr__(self):
         return f"buf[{self.lo}:{self.hi}]"
 
@@ -39,7 +42,7 @@ class Buf:
 
 
 _PYTYPES = {"list": list, "dict": dict, "int": int, "bool": bool, "str": str, "bytes": bytes, "tuple": tuple, "float": float, "set": set,
-            "object": object, "bytearray": bytearray}
+            "object": object, "bytearray": bytearray, "memoryview": memoryview}
 
 
 def _pytype(v):
@@ -54,8 +57,48 @@ def _pytype(v):
     return type(v)
 
 
+_STR_METHODS = {"startswith", "endswith", "lower", "upper", "strip", "lstrip", "rstrip", "isdigit", "split", "rsplit", "find", "rfind", "replace", "join",
+                "partition", "rpartition", "count", "encode", "decode", "title", "splitlines", "format", "index", "isalnum", "isalpha", "zfill"}
+
+
+def _to_py(v):
+    """model value -> Python value for a pure string operation (the empty string is modelled as the empty buffer)"""
+    if isinstance(v, Buf) and len(v) == 0:
+        return ""
+    if isinstance(v, list):
+        return [_to_py(x) for x in v]
+    return v
+
+
+def _from_py(v):
+    if isinstance(v, (str, bytes)) and len(v) == 0:
+        return Buf(0, 0)
+    if isinstance(v, (list, tuple)):
+        return [_from_py(x) for x in v]
+    return v
+
+
+class _LazyIter:
+    """for-loop view of an iterator object: element i is fetched when the loop reaches it"""
+
+    def __init__(self, it):
+        self.it, self.buf = it, []
+
+    def more(self, i):
+        while len(self.buf) <= i:
+            try:
+                self.buf.append(next(self.it))
+            except StopIteration:
+                return False
+        return True
+
+    def __getitem__(self, i):
+        return self.buf[i]
+
+
 class Tiny:
-    def __init__(self, env, calls=None, default_call=None, model_types=False, opaque_globals=False, inline_self=None):
+    def __init__(self, env, calls=None, default_call=None, model_types=False, opaque_globals=False, inline_self=None, model_strings=False):
+        self.model_strings = model_strings  # opt-in: pure str/bytes operations on the model's own constants (split, find, slicing, int(), join ...)
         self.inline_self = inline_self  # opt-in: method name -> ast.FunctionDef of a method of the same object, evaluated in place (own locals, shared self)
         self.opaque_globals = opaque_globals  # opt-in: a dotted global the rule did not bind (module.Class.CONST) is an opaque object
         self.model_types = model_types  # opt-in: type()/isinstance()/builtin type names answered from the Python type of the model value
@@ -69,6 +112,8 @@ class Tiny:
             if e.value in (b"", ""):
                 return Buf(0, 0)
             if isinstance(e.value, (int, bool, str)) or e.value is None:
+                return e.value
+            if self.model_strings and isinstance(e.value, (bytes, float)):
                 return e.value
             raise AnalysisError(f"tiny: constant {e.value!r}")
         if isinstance(e, (ast.List, ast.Tuple)):
@@ -117,6 +162,20 @@ class Tiny:
                 lo, hi, stp = [None if x is None else self.ev(x) for x in (e.slice.lower, e.slice.upper, e.slice.step)]
                 if all(x is None or (isinstance(x, int) and not isinstance(x, bool)) for x in (lo, hi, stp)) and stp != 0:
                     return list(b[slice(lo, hi, stp)])
+            if self.model_strings and (isinstance(b, (str, bytes)) or (isinstance(b, Buf) and len(b) == 0)):
+                sv = "" if isinstance(b, Buf) else b
+                if isinstance(e.slice, ast.Slice):
+                    lo, hi, stp = [None if x is None else self.ev(x) for x in (e.slice.lower, e.slice.upper, e.slice.step)]
+                    if all(x is None or (isinstance(x, int) and not isinstance(x, bool)) for x in (lo, hi, stp)) and stp != 0:
+                        return _from_py(sv[slice(lo, hi, stp)])
+                else:
+                    k = self.ev(e.slice)
+                    if isinstance(k, int):
+                        try:
+                            return sv[k]
+                        except IndexError:
+                            raise TinyRaise("IndexError")
+                    raise TinyRaise("TypeError")
             if isinstance(b, Buf) and isinstance(e.slice, ast.Slice) and e.slice.step is None:
                 lo = self.ev(e.slice.lower) if e.slice.lower is not None else None
                 hi = self.ev(e.slice.upper) if e.slice.upper is not None else None
@@ -131,12 +190,25 @@ class Tiny:
                 return {ast.Mod: operator.mod, ast.LShift: operator.lshift, ast.RShift: operator.rshift, ast.BitOr: operator.or_, ast.BitAnd: operator.and_,
                         ast.BitXor: operator.xor, ast.FloorDiv: operator.floordiv, ast.Pow: operator.pow}[type(e.op)](l, r)
             raise AnalysisError(f"tiny: operator on {l!r}, {r!r}")
+        if isinstance(e, ast.BinOp) and isinstance(e.op, ast.Div):
+            l, r = self.ev(e.left), self.ev(e.right)
+            if isinstance(l, (int, float)) and isinstance(r, (int, float)) and not isinstance(l, bool) and not isinstance(r, bool):
+                if r == 0:
+                    raise TinyRaise("ZeroDivisionError")
+                return l / r
+            raise AnalysisError(f"tiny: division of {l!r} by {r!r}")
         if isinstance(e, ast.BinOp) and isinstance(e.op, (ast.Add, ast.Sub, ast.Mult)):
             l, r = self.ev(e.left), self.ev(e.right)
             if isinstance(l, Buf) and isinstance(r, Buf) and isinstance(e.op, ast.Add):
                 if l.hi == r.lo or len(l) == 0 or len(r) == 0:
                     return Buf(l.lo if len(l) else r.lo, r.hi if len(r) else l.hi)
                 raise AnalysisError("tiny: concatenation of non-adjacent slices")
+            if self.model_strings and isinstance(e.op, ast.Add) and (isinstance(l, (str, bytes)) or isinstance(r, (str, bytes))):
+                l = (type(r)() if isinstance(r, (str, bytes)) else "") if isinstance(l, Buf) and len(l) == 0 else l
+                r = (type(l)() if isinstance(l, (str, bytes)) else "") if isinstance(r, Buf) and len(r) == 0 else r
+                if type(l) is type(r):
+                    return _from_py(l + r)
+                raise TinyRaise("TypeError")
             return l + r if isinstance(e.op, ast.Add) else (l - r if isinstance(e.op, ast.Sub) else l * r)
         if isinstance(e, ast.Compare) and len(e.ops) >= 1:
             vals = [self.ev(e.left)] + [self.ev(c) for c in e.comparators]
@@ -145,6 +217,11 @@ class Tiny:
                     a = len(a) if isinstance(a, Buf) else a
                     b = len(b) if isinstance(b, Buf) else b
                 if isinstance(op, (ast.In, ast.NotIn)):
+                    if self.model_strings:
+                        if isinstance(b, Buf) and len(b) == 0:
+                            b = type(a)() if isinstance(a, (str, bytes)) else ""
+                        if isinstance(a, Buf) and len(a) == 0 and isinstance(b, (str, bytes)):
+                            a = type(b)()
                     try:
                         r = (a in b) if isinstance(op, ast.In) else (a not in b)
                     except TypeError:  # unhashable key tested against a dict / set
@@ -174,11 +251,36 @@ class Tiny:
         if isinstance(e, ast.UnaryOp) and isinstance(e.op, ast.USub):
             return -self.ev(e.operand)
         if isinstance(e, ast.JoinedStr):
-            return "<text>"
-        if isinstance(e, (ast.GeneratorExp, ast.ListComp)) and len(e.generators) == 1 and not e.generators[0].is_async:
+            if not self.model_strings:
+                return "<text>"
+            out = []
+            for part in e.values:
+                if isinstance(part, ast.Constant):
+                    out.append(str(part.value))
+                else:
+                    v = _to_py(self.ev(part.value))
+                    if isinstance(v, (str, int)) and not isinstance(v, bool) and part.conversion == -1 and part.format_spec is None:
+                        out.append(str(v))
+                    else:
+                        out.append(f"<{v!r}>")  # formatting of anything else is not modelled: an opaque piece of text
+            return _from_py("".join(out))
+        if isinstance(e, (ast.GeneratorExp, ast.ListComp)) and not any(g_.is_async for g_ in e.generators):
             return list(self._comp(e))
+        if isinstance(e, ast.SetComp) and not any(g_.is_async for g_ in e.generators):
+            try:
+                return set(self._comp(e))
+            except TypeError:
+                raise TinyRaise("TypeError")
+        if isinstance(e, ast.DictComp) and not any(g_.is_async for g_ in e.generators):
+            pair = ast.copy_location(ast.Tuple(elts=[e.key, e.value], ctx=ast.Load()), e)
+            try:
+                return {k_: v_ for k_, v_ in self._comp(ast.copy_location(ast.ListComp(elt=pair, generators=e.generators), e))}
+            except TypeError:
+                raise TinyRaise("TypeError")
         if isinstance(e, ast.IfExp):
             return self.ev(e.body) if self.truth(self.ev(e.test)) else self.ev(e.orelse)
+        if isinstance(e, ast.Lambda):
+            return Sym("lambda")  # an opaque callable: what it does when called later is outside the cell
         if isinstance(e, ast.Call):
             t = norm.text(e)
             f = norm.text(e.func)
@@ -203,16 +305,35 @@ class Tiny:
                     sargs = [self.ev(a) for a in e.args]
                     if all(isinstance(x, (str, int)) and not isinstance(x, bool) for x in sargs):
                         return getattr(recv, e.func.attr)(*sargs)  # a pure function of the model's own name constants
+                if self.model_strings and (isinstance(recv, (str, bytes)) or (isinstance(recv, Buf) and len(recv) == 0)) and e.func.attr in _STR_METHODS and not e.keywords:
+                    sargs = [_to_py(self.ev(a)) for a in e.args]
+                    if e.func.attr == "format" and not (isinstance(recv, str) and all(isinstance(x, (str, int)) and not isinstance(x, bool) for x in sargs)):
+                        return "<text>"
+                    rv = recv
+                    if isinstance(rv, Buf):
+                        rv = b"" if any(isinstance(x, bytes) for x in sargs) or e.func.attr == "decode" else ""
+                    if all(isinstance(x, (str, bytes, int)) or x is None or (isinstance(x, (list, tuple)) and all(isinstance(y, (str, bytes)) for y in x)) for x in sargs):
+                        try:
+                            return _from_py(getattr(rv, e.func.attr)(*sargs))
+                        except (TypeError, ValueError, UnicodeError) as ex:
+                            raise TinyRaise(type(ex).__name__)
                 if isinstance(recv, Sym) and e.func.attr in recv.methods:
                     args = [self.ev(a) for a in e.args]
                     kwargs = {k.arg: self.ev(k.value) for k in e.keywords if k.arg is not None}
                     self.trace.append((f"{recv.name}.{e.func.attr}", args, kwargs))
                     return recv.methods[e.func.attr](*args, **kwargs)
-            if f in ("any", "all") and len(e.args) == 1 and isinstance(e.args[0], (ast.GeneratorExp, ast.ListComp)) and len(e.args[0].generators) == 1:
+            if f in ("any", "all") and len(e.args) == 1 and isinstance(e.args[0], (ast.GeneratorExp, ast.ListComp)):
                 for v in self._comp(e.args[0]):  # lazily, like the builtin
                     if self.truth(v) == (f == "any"):
                         return f == "any"
                 return f != "any"
+            if f == "enumerate" and 1 <= len(e.args) <= 2 and not e.keywords and f not in self.calls:
+                seq_ = self.ev(e.args[0])
+                start_ = self.ev(e.args[1]) if len(e.args) == 2 else 0
+                if isinstance(seq_, dict):
+                    seq_ = list(seq_)
+                if isinstance(seq_, (list, tuple)) and isinstance(start_, int):
+                    return [[start_ + i_, x_] for i_, x_ in enumerate(seq_)]
             if f == "zip" and len(e.args) == 2:
                 a_, b_ = self.ev(e.args[0]), self.ev(e.args[1])
                 if isinstance(a_, (list, tuple)) and isinstance(b_, (list, tuple)):
@@ -244,8 +365,24 @@ class Tiny:
                     pass  # classes / objects outside the model: left to the rule's call oracle below
             if f == "len" and len(e.args) == 1:
                 v = self.ev(e.args[0])
-                if isinstance(v, (Buf, list, dict, tuple, str)):
+                if isinstance(v, (Buf, list, dict, tuple, str, set, bytes)):
                     return len(v)
+            if self.model_strings and f in ("int", "str") and len(e.args) == 1 and not e.keywords and f not in self.calls:
+                v = _to_py(self.ev(e.args[0]))
+                if isinstance(v, (str, int, float)) and not isinstance(v, bool):
+                    try:
+                        return _from_py(int(v) if f == "int" else str(v))
+                    except ValueError:
+                        raise TinyRaise("ValueError")
+            if self.model_strings and f == "sorted" and len(e.args) == 1 and not e.keywords:
+                v = self.ev(e.args[0])
+                if isinstance(v, (list, tuple)) and all(isinstance(x, (int, str)) for x in v):
+                    return sorted(v)
+            if f == "getattr" and len(e.args) == 2 and not e.keywords:
+                nm = self.ev(e.args[1])
+                if isinstance(nm, str) and nm.isidentifier():
+                    # getattr(x, "name") with a known name is the attribute read x.name
+                    return self.ev(ast.copy_location(ast.Attribute(value=e.args[0], attr=nm, ctx=ast.Load()), e))
             if f in ("min", "max") and e.args:
                 return (min if f == "min" else max)(self.ev(a) for a in e.args)
             if f in ("bytes", "bytearray", "memoryview") and len(e.args) == 1:
@@ -260,20 +397,43 @@ class Tiny:
                 if isinstance(v, dict):
                     return list(v)
                 raise AnalysisError(f"tiny: {f}() of {v!r} would raise TypeError")
+            if f in ("set", "frozenset") and not e.keywords and len(e.args) <= 1 and f not in self.calls:
+                v = self.ev(e.args[0]) if e.args else []
+                if isinstance(v, dict):
+                    v = list(v)
+                if isinstance(v, (list, tuple, set)):
+                    try:
+                        return set(v)
+                    except TypeError:
+                        raise TinyRaise("TypeError")
+                raise AnalysisError(f"tiny: {f}() of {v!r}")
             if f == "dict" and not e.keywords and len(e.args) <= 1:
                 if not e.args:
                     return {}
                 v = self.ev(e.args[0])
                 if isinstance(v, dict):
                     return dict(v)
+                if isinstance(v, (list, tuple)) and all(isinstance(x, (list, tuple)) and len(x) == 2 for x in v):
+                    try:
+                        return {k_: v_ for k_, v_ in v}
+                    except TypeError:
+                        raise TinyRaise("TypeError")
                 raise AnalysisError(f"tiny: dict() of {v!r}")
             if isinstance(e.func, ast.Attribute) and e.func.attr in ("append", "remove", "extend", "insert", "pop", "get", "setdefault", "clear", "values", "keys", "items",
-                                                                    "index", "count", "copy", "popleft", "appendleft"):
+                                                                    "index", "count", "copy", "popleft", "appendleft", "reverse", "sort", "update", "add", "discard", "union", "intersection", "difference", "issubset"):
                 try:
                     tgt = self.ev(e.func.value)
                 except AnalysisError:
                     tgt = None
-                if isinstance(tgt, (list, dict)) and hasattr(tgt, e.func.attr):
+                if isinstance(tgt, list) and e.func.attr in ("popleft", "appendleft") and not hasattr(tgt, e.func.attr):
+                    # a plain list standing for a deque
+                    if e.func.attr == "popleft":
+                        if not tgt:
+                            raise TinyRaise("IndexError")
+                        return tgt.pop(0)
+                    tgt.insert(0, self.ev(e.args[0]))
+                    return None
+                if isinstance(tgt, (list, dict, set)) and hasattr(tgt, e.func.attr):
                     args = [self.ev(a) for a in e.args]
                     try:
                         r = getattr(tgt, e.func.attr)(*args)
@@ -357,7 +517,10 @@ class Tiny:
         for k, v in self.env.items():  # dotted globals the rule bound (module.CONST) stay visible
             if "." in k and not k.startswith("self") and k.split(".")[0] not in env:
                 env.setdefault(k, v)
-        sub = Tiny(env, calls=self.calls, default_call=self.default_call, model_types=self.model_types, opaque_globals=self.opaque_globals, inline_self=self.inline_self)
+            elif k.isidentifier() and k[:1].isupper() and k not in names:
+                env.setdefault(k, v)  # a module-level class / constant the rule bound by name
+        sub = Tiny(env, calls=self.calls, default_call=self.default_call, model_types=self.model_types, opaque_globals=self.opaque_globals, inline_self=self.inline_self,
+                   model_strings=self.model_strings)
         sub._depth = depth + 1
         sub.trace = self.trace
         r = sub.run([x for x in node.body if not (isinstance(x, ast.Expr) and isinstance(x.value, ast.Constant))])
@@ -368,11 +531,15 @@ class Tiny:
             raise TinyRaise(r[1])
         return r[1] if r[0] == "return" else None
 
-    def _comp(self, e):
-        g = e.generators[0]
+    def _comp(self, e, depth=0):
+        g = e.generators[depth]
         seq = self.ev(g.iter)
         if isinstance(seq, dict):
             seq = list(seq)
+        if isinstance(seq, set):
+            seq = sorted(seq, key=repr)
+        if self.model_strings and (isinstance(seq, str) or (isinstance(seq, Buf) and len(seq) == 0)):
+            seq = list(seq) if isinstance(seq, str) else []
         if not isinstance(seq, (list, tuple)):
             raise AnalysisError(f"tiny: comprehension over {seq!r}")
         saved = dict(self.env)
@@ -386,7 +553,10 @@ class Tiny:
                 else:
                     raise AnalysisError("tiny: comprehension target")
                 if all(self.truth(self.ev(c)) for c in g.ifs):
-                    yield self.ev(e.elt)
+                    if depth + 1 < len(e.generators):
+                        yield from self._comp(e, depth + 1)
+                    else:
+                        yield self.ev(e.elt)
         finally:
             for k in list(self.env):
                 if k not in saved:
@@ -409,6 +579,18 @@ class Tiny:
         for st in stmts:
             if stop is not None and stop(st):
                 return ("stop", st)
+            if isinstance(st, ast.AnnAssign):
+                if st.value is None:
+                    continue
+                st = ast.copy_location(ast.Assign(targets=[st.target], value=st.value), st)
+            if isinstance(st, ast.Assign) and len(st.targets) > 1:
+                # a = b = <value>: the value is evaluated once and stored left to right
+                self.env["<chained>"] = self.ev(st.value)
+                r = self._run([ast.copy_location(ast.Assign(targets=[t_], value=ast.copy_location(ast.Name(id="<chained>", ctx=ast.Load()), st)), st) for t_ in st.targets], stop)
+                self.env.pop("<chained>", None)
+                if r[0] != "fall":
+                    return r
+                continue
             if isinstance(st, ast.Assign) and len(st.targets) == 1:
                 v = self.ev(st.value)
                 t = st.targets[0]
@@ -445,6 +627,13 @@ class Tiny:
                 import operator
                 ops = {ast.Add: operator.add, ast.Sub: operator.sub, ast.BitOr: operator.or_, ast.BitAnd: operator.and_, ast.Mult: operator.mul,
                        ast.LShift: operator.lshift, ast.RShift: operator.rshift, ast.BitXor: operator.xor}
+                if self.model_strings and isinstance(st.op, ast.Add) and (isinstance(cur, (str, bytes)) or isinstance(v, (str, bytes))):
+                    if isinstance(cur, Buf) and len(cur) == 0:
+                        cur = type(v)()
+                    if isinstance(v, Buf) and len(v) == 0:
+                        v = type(cur)()
+                    if type(cur) is not type(v):
+                        raise TinyRaise("TypeError")
                 if isinstance(st.op, ast.Add) and isinstance(cur, Buf) and isinstance(v, Buf):
                     if not (cur.hi == v.lo or len(cur) == 0 or len(v) == 0):
                         raise AnalysisError("tiny: concatenation of non-adjacent slices")
@@ -489,11 +678,17 @@ class Tiny:
                 seq = self.ev(st.iter)
                 if isinstance(seq, dict):
                     seq = list(seq)
-                if not isinstance(seq, list):
+                if self.model_strings and (isinstance(seq, str) or (isinstance(seq, Buf) and len(seq) == 0)):
+                    seq = list(seq) if isinstance(seq, str) else []
+                if not isinstance(seq, (list, tuple)) and hasattr(seq, "__next__"):
+                    seq = _LazyIter(seq)  # an iterator object of the model (e.g. a round-robin cycle): consumed one element per pass
+                if isinstance(seq, (tuple, set)):
+                    seq = list(seq) if isinstance(seq, tuple) else sorted(seq, key=repr)
+                if not isinstance(seq, (list, _LazyIter)):
                     raise AnalysisError(f"tiny: iteration over {seq!r}")
                 i = 0
                 broke = False
-                while i < len(seq):  # live iteration, like CPython's list iterator
+                while seq.more(i) if isinstance(seq, _LazyIter) else i < len(seq):  # live iteration, like CPython's list iterator
                     if isinstance(st.target, ast.Name):
                         self.env[st.target.id] = seq[i]
                     else:
